@@ -441,6 +441,9 @@ func runPolicySelect() int {
 						return doc.GetApplicableTrustPolicy("alph") // a prefix of a listed name
 					case "caseName":
 						return doc.GetApplicableTrustPolicy("ALPHA")
+					case "paddedName":
+						// a listed name with surrounding white space is another name
+						return doc.GetApplicableTrustPolicy([]string{" alpha", "alpha ", "alpha\n", "\talpha"}[int(salt)%4])
 					}
 					return doc.GetApplicableTrustPolicy(nameAtom[in.BName])
 				}
